@@ -339,6 +339,23 @@ fn answer<M: MemoizerKind>(
             }
         }
     }
+    // C08 (the result is a function of the argument SET): an argument the pattern cannot refer to (`!` is no identifier
+    // character) inserted into the SAME FluentArgs object after a first call, at the front of the sorted list, changes
+    // nothing - whatever a lookup may have remembered about the object
+    if let Some(ps) = &rq.args {
+        let mut a = FluentArgs::new();
+        for (k, t) in ps {
+            a.set(k.as_str(), tok_value(t));
+        }
+        let mut e1 = vec![];
+        let t1 = bundle.format_pattern(pattern, Some(&a), &mut e1).into_owned();
+        a.set("!unrelated", 7);
+        let mut e2 = vec![];
+        let t2 = bundle.format_pattern(pattern, Some(&a), &mut e2).into_owned();
+        if t1 != t2 || errs_str(&e1) != errs_str(&e2) {
+            return format!("T - [] W - [] ARGS-INSERT-DISAGREE(before {:?} {} / after inserting an unrelated argument {:?} {})", t1, errs_str(&e1), t2, errs_str(&e2)).replace(';', ",");
+        }
+    }
     // C08: the three stringification paths of a value (`write`, `as_string`, `into_string`) agree, with and
     // without a formatter; `FluentValue` equality is reflexive on strings, numbers and custom values
     let mut stringify = String::new();
@@ -648,7 +665,15 @@ fn run_one(payload: &str) -> String {
             }
         }
         let mut shared: Option<Vec<FluentError>> = if kv(cfg, "ev") == "shared" { Some(vec![]) } else { None };
-        reqs.iter().map(|r| answer(&b, r, shared.as_mut())).collect()
+        let outs: Vec<String> = reqs.iter().map(|r| answer(&b, r, shared.as_mut())).collect();
+        if kv(cfg, "fw") == "1" {
+            // C06 (`fw=1`): the streaming entry point with writers that fail after 0..=12 bytes - wherever the resolver is
+            // at that moment (inside a reference, a term, a variant), the call returns; it does not panic
+            for r in &reqs {
+                failing_writes(&b, r);
+            }
+        }
+        outs
     };
     outs.join(";")
 }
